@@ -268,6 +268,51 @@ def findings(stderr_text):
     return out
 
 
+def coq_examples(chk):
+    """the byte-level Example of Props/C02.v (C02_end_to_end_example), evaluated by the kernel, replayed on the real binary: the input bytes
+    and the (offset, code) list + exit status are printed by coqc from the compiled development; the binary must report the same"""
+    import subprocess
+    src = ("From Coq Require Import List NArith.\nFrom FP Require Import Model.Base Model.System Spec.Framing Props.C02.\nImport ListNotations.\nOpen Scope N_scope.\n"
+           "Eval vm_compute in serialize e2e_pkts.\nEval vm_compute in view_run (run_check true e2e_cfg (serialize e2e_pkts)).\n")
+    path = os.path.join(core.COQ, "fv_examples_tmp.v")
+    try:
+        with open(path, "w") as f:
+            f.write(src)
+        p = subprocess.run(["coqc", "-Q", ".", "FP", "-w", "-notation-overridden", "fv_examples_tmp.v"], cwd=core.COQ, capture_output=True, timeout=600)
+        out = p.stdout.decode("utf8", "replace")
+    finally:
+        for ext in (".v", ".vo", ".vok", ".vos", ".glob"):
+            try:
+                os.remove(os.path.join(core.COQ, "fv_examples_tmp" + ext))
+            except OSError:
+                pass
+        try:
+            os.remove(os.path.join(core.COQ, ".fv_examples_tmp.aux"))
+        except OSError:
+            pass
+    blocks = [b for b in out.split("     = ")[1:]]
+    if len(blocks) != 2:
+        chk.disagreements.append({"stream": "coq-examples", "detail": "the example could not be evaluated", "coqc": (out + p.stderr.decode("utf8", "replace"))[-600:]})
+        return
+    data = bytes(int(x) for x in re.findall(r"\d+", blocks[0].split(": list")[0]))
+    pairs = [(int(a), int(b)) for a, b in re.findall(r"\((\d+),\s*(\d+)\)", blocks[1])]
+    mexit = int(re.findall(r"\],\s*(\d+)\)", blocks[1])[-1])
+    tmp = core.scratch_dir("c02ex")
+    fpath = os.path.join(tmp, "example.raw")
+    open(fpath, "wb").write(data)
+    rc, so, se, dt = core.run_cli([fpath, "check", "all", "its", "-E", str(mexit)], timeout=60)
+    got = []
+    for l in ANSI.sub("", se.decode("utf8", "replace")).split("\n"):
+        m = re.match(r"ERROR\s+0x([0-9A-Fa-f]+):\s*\[E(\d+)\]", l)
+        if m:
+            got.append((int(m.group(1), 16), int(m.group(2))))
+    shutil.rmtree(tmp, ignore_errors=True)
+    chk.add_stream("coq-examples", 1, {("C02_end_to_end_example", len(data), len(pairs))}, [{"input_bytes": len(data), "model": pairs, "binary": got, "exit": rc}])
+    if got != pairs or rc != mexit:
+        chk.disagreements.append({"stream": "coq-examples", "example": "C02_end_to_end_example", "input_hex": data.hex().upper(), "model": pairs, "model_exit": mexit,
+                                  "impl": got, "impl_exit": rc})
+
+
 def run(tier, seed):
     chk = core.Check("C02", tier, seed)
     rng = random.Random(seed)
@@ -374,6 +419,8 @@ def run(tier, seed):
     if missing:
         chk.disagreements.append({"stream": "fault-catalogue", "detail": "catalogue entries that could not be applied to any generated stream", "entries": missing})
     shutil.rmtree(tmp, ignore_errors=True)
+    if chk.proof.get("ok"):
+        coq_examples(chk)
     chk.add_stream("fault-catalogue", len(jobs), distinct, samples, distribution={"catalogue_entries": len(names), "faulted_streams_per_entry": reps, "runs": len(jobs)})
     chk.cov["rule"] = ("%d catalogue entries (RDH0..RDH3 sanity rules incl. ITS system id, the four running rules, IHW / TDH / TDT / DDW0 identifier and reserved-bit rules, data word ids, "
                        "unknown identifiers in choice states, the padding limit, the two CDW rules on calibration streams, DDW0 page rules, the TDH continuation / bunch-crossing / orbit rules) x positions first / middle / "
